@@ -321,7 +321,9 @@ func cmdCheck(args []string) int {
 			status = "not-applicable: " + h.ReplayNote
 		}
 		fmt.Printf("counterexample harness=%s kind=%s label=%q native-replay=%s\n", v.Harness, v.Kind, v.Label, status)
-		if strings.HasPrefix(status, "not-reproduced") {
+		if strings.HasPrefix(status, "not-reproduced") && h != nil && h.ReplayOptional {
+			status = "solver-decided; native run cannot force every model choice (" + h.ReplayNote + "): " + status
+		} else if strings.HasPrefix(status, "not-reproduced") {
 			inconcl = append(inconcl, fmt.Sprintf("%s: unconfirmed counterexample for %q (%s); replay=%s", v.Harness, v.Label, status, path))
 			continue
 		}
